@@ -7,6 +7,7 @@
 #include <iomanip>
 #include <iostream>
 #include <numeric>
+#include <stdexcept>
 #include <utility>
 
 #include "density_legalizer.hpp"
@@ -35,6 +36,21 @@ std::vector<float> blendPlacement(const std::vector<float> &v1,
     ret.push_back((1.0f - blending) * v1[i] + blending * v2[i]);
   }
   return ret;
+}
+
+/**
+ * Stop if the continuous model returned non-finite coordinates (overflow of
+ * the penalty or divergence of the solver): converting them to integers
+ * later on would be undefined behaviour
+ */
+void checkFinitePlacement(const std::vector<float> &placement) {
+  for (float p : placement) {
+    if (!std::isfinite(p)) {
+      throw std::runtime_error(
+          "Global placement diverged: the continuous model returned a "
+          "non-finite cell position");
+    }
+  }
 }
 }  // namespace
 
@@ -211,12 +227,16 @@ void GlobalPlacer::runInitialLB() {
       params_.global.continuousModel.maxNbConjugateGradientSteps;
   xPlacementLB_ = xtopo_.solveStar(params);
   yPlacementLB_ = ytopo_.solveStar(params);
+  checkFinitePlacement(xPlacementLB_);
+  checkFinitePlacement(yPlacementLB_);
   std::cout << std::defaultfloat << std::setprecision(4) << "#0:\tLB "
             << valueLB() << std::endl;
   callback(PlacementStep::LowerBound, xPlacementLB_, yPlacementLB_);
   for (step_ = 1; step_ <= params_.global.nbInitialSteps; ++step_) {
     xPlacementLB_ = xtopo_.solve(xPlacementLB_, params);
     yPlacementLB_ = ytopo_.solve(yPlacementLB_, params);
+    checkFinitePlacement(xPlacementLB_);
+    checkFinitePlacement(yPlacementLB_);
     std::cout << std::defaultfloat << std::setprecision(4) << "#" << step_
               << ":\tLB " << valueLB() << std::endl;
     callback(PlacementStep::LowerBound, xPlacementLB_, yPlacementLB_);
@@ -253,6 +273,8 @@ void GlobalPlacer::runLB() {
                  yPlacementLB_, yTarget, penalty, params);
   xPlacementLB_ = x.get();
   yPlacementLB_ = y.get();
+  checkFinitePlacement(xPlacementLB_);
+  checkFinitePlacement(yPlacementLB_);
   callback(PlacementStep::LowerBound, xPlacementLB_, yPlacementLB_);
 }
 
